@@ -51,6 +51,7 @@ type SolverPool struct {
 
 func NewSolverPool(cacheDir, workDir string, useCache bool) *SolverPool {
 	os.MkdirAll(cacheDir, 0o755)
+	workDir = filepath.Join(workDir, fmt.Sprint(os.Getpid())) // concurrent runs must not share query files
 	os.MkdirAll(workDir, 0o755)
 	return &SolverPool{cacheDir: cacheDir, workDir: workDir, useCache: useCache, wins: map[string]int{}}
 }
@@ -143,6 +144,7 @@ func (p *SolverPool) Solve(query string, timeout time.Duration, needTwo bool, wa
 		go func(sp solverSpec) { ch <- runOne(ctx, sp, file, timeout) }(sp)
 	}
 	var best SolverResult
+	z3Timeout, anyUnknown := false, false
 	unsatBy := []string{}
 	var errs []string
 	got := 0
@@ -169,12 +171,27 @@ func (p *SolverPool) Solve(query string, timeout time.Duration, needTwo bool, wa
 			if r.Status == "error" {
 				errs = append(errs, r.Solver+": "+truncate(r.Output, 300))
 			}
+			if r.Status == "timeout" && strings.HasPrefix(r.Solver, "z3") {
+				z3Timeout = true
+			}
+			if r.Status == "unknown" {
+				anyUnknown = true
+			}
 			if best.Status == "" || best.Status == "error" {
 				best = r
 			}
 		}
 	}
 	cancel()
+	if best.Status != "unsat" && best.Status != "sat" {
+		// summary: "timeout" only when a z3 (the solvers that decide these goals) ran out of time -- then more time may
+		// help; "unknown" when they gave up on their own (cvc5 running into its limit next to that says nothing)
+		if z3Timeout {
+			best.Status = "timeout"
+		} else if anyUnknown {
+			best.Status = "unknown"
+		}
+	}
 	if needTwo && len(unsatBy) == 1 && best.Status == "unsat" {
 		best.Status = "unknown"
 		best.Output = "only one solver answered unsat: " + unsatBy[0]
